@@ -19,6 +19,10 @@ def table_part(ck, tier, lab):
     res = lib.read_ndjson(out)[0]
     for m in res["mismatches"] or []:
         ck.disagree("event/%s" % m["op"], "option %s: %s" % (m["op"], m["problem"]), {"trans": m["trans"]})
+    if res.get("raw_text_differs"):
+        ck.notes.append("MODEL-DRIFT: the raw text field 'payload' differs from the bytes given in %d transitions (the property fixes "
+                        "payload-hex and payload-length only)" % res["raw_text_differs"])
+        print("MODEL-DRIFT C05: raw text field differs from the bytes in %d transitions" % res["raw_text_differs"])
     ck.sample(r.scn[len(r.scn) // 2])
     return res["transitions"]
 
@@ -38,6 +42,9 @@ def flat_part(ck, tier, lab):
             raise lib.Infra("Event_Trace failed without a rejected line:\n" + tr.out[-1500:])
         bad = rows[at - 1]
         ck.disagree("event/%s-fidelity" % bad["k"], "recorded %s is not what Event.tla prescribes" % json.dumps(bad)[:300], {"line": bad})
+    nraw = sum(1 for x in rows if x.get("raw_ok") is False)
+    if nraw:
+        ck.notes.append("MODEL-DRIFT: raw text field differs from the bytes in %d recorded payloads" % nraw)
     ck.sample(rows[300])
     return len(rows)
 
@@ -52,7 +59,7 @@ def run(tier, lab):
         "rule": "every (store, option) transition of Event.tla over the small alphabet is one implementation test "
                 "(ToMap, raw payload, json.Marshal keys); flat space: all 65,793 payloads of length <= 2 plus seeded long ones",
     })
-    ck.assumptions += ["the 'payload' field (raw string) is compared by the harness, Event.tla covers hex and length",
+    ck.assumptions += ["the 'payload' field (raw string) is compared by the harness and a difference reported as drift: the property fixes hex and length (Event.tla)",
                        "serialisability of events emitted by services is observed in the service explorations (C01/C04 traces)"]
     return ck.finish()
 
